@@ -41,6 +41,7 @@ type Line struct {
 	NoMsg  bool          `json:"no_msg,omitempty"`
 	NotStr bool          `json:"not_string,omitempty"` // the field is a number
 	Pause  time.Duration `json:"pause,omitempty"`
+	Lvl    string        `json:"lvl,omitempty"` // field the action's match condition looks at
 }
 
 type Cfg struct {
@@ -56,6 +57,7 @@ type Cfg struct {
 	Capacity     int           `json:"capacity"`
 	Pool         string        `json:"pool"`
 	Readers      [][]Line      `json:"readers"`
+	MatchLvl     string        `json:"match_lvl,omitempty"` // the action is applied only to events with lvl == this value
 }
 
 func (c *Cfg) SimCfg() *simrt.Config { return &c.Sim }
@@ -108,6 +110,9 @@ func (h *H) Gen(rng *rand.Rand, tier, prop string) core.Cfg {
 	case "k8s":
 		vocab = []string{"part ", "chunk", "x", "end\n", "done\n", "\n", "more ", "fin\n"}
 	}
+	if c.Action != "k8s" && core.Chance(rng, 0.25) {
+		c.MatchLvl = "e"
+	}
 	nReaders := core.Between(rng, 1, 3)
 	nSources := core.Between(rng, nReaders, nReaders+1)
 	streams := []string{"stdout", "stderr"}[:core.Between(rng, 1, 2)]
@@ -132,6 +137,15 @@ func (h *H) Gen(rng *rand.Rand, tier, prop string) core.Cfg {
 			l.Msg += strconv.Itoa(l.ID) + " "
 		} else {
 			l.Msg = strconv.Itoa(l.ID) + l.Msg
+		}
+		if c.MatchLvl != "" {
+			l.Lvl = core.Pick(rng, "e", "e", "e", "i", "")
+			// a start line always matches the condition: whether a NON-matching start line is shown to the
+			// action depends on whether the previous run was ended by it or by a time-out just before it,
+			// which the harness cannot tell apart when the gap is about one time-out long
+			if cl := newClassifier(c); !l.NoMsg && !l.NotStr && cl.first(l.Msg) {
+				l.Lvl = c.MatchLvl
+			}
 		}
 		switch {
 		case core.Chance(rng, 0.65):
@@ -270,6 +284,9 @@ func lineJSON(c *Cfg, l Line) []byte {
 		field = "log"
 		sb.WriteString(`,"k8s_namespace":"ns","k8s_pod":"pod-1","k8s_container_id":"` + cid + `","k8s_container":"app"`)
 	}
+	if l.Lvl != "" {
+		fmt.Fprintf(&sb, `,"lvl":%q`, l.Lvl)
+	}
 	switch {
 	case l.NoMsg:
 	case l.NotStr:
@@ -322,6 +339,10 @@ func (h *H) Run(cc core.Cfg, sim *simrt.Sim) *core.Outcome {
 			}
 			info.Config = conf
 			info.Factory = static.Factory
+			if cfg.MatchLvl != "" {
+				info.MatchConditions = pipeline.MatchConditions{{Field: []string{"lvl"}, Values: []string{cfg.MatchLvl}}}
+				info.MatchMode = pipeline.MatchModeAnd
+			}
 		case "k8s":
 			meta.DisableMetaUpdates = true
 			meta.EnableGatherer(logger.Instance)
@@ -529,7 +550,10 @@ func (h *H) check(cfg *Cfg, all []*obs, outs []outRec, o *core.Outcome) {
 		}
 		for i < len(in) {
 			v, has, isStr := joinVal(in[i].line)
-			isStart := has && isStr && cl.first(v)
+			matches := cfg.MatchLvl == "" || in[i].line.Lvl == cfg.MatchLvl
+			// outside a run an event that does not match the condition skips the action; inside a run
+			// (the action is busy) every event of the stream is shown to it
+			isStart := matches && has && isStr && cl.first(v)
 			if j >= len(out) {
 				fail("missing-output", "no output for line id %d", in[i].line.ID)
 				return
